@@ -509,11 +509,11 @@ def check_C12(ctx):
                     positions.add(cval(x[2][1]))
                 elif x[1] in ("has_char", "char_at", "has_byte", "byte_at", "str_slice", "is_char_boundary_range"):
                     pass  # reads through byte offsets / sub-slices: decided by the fold and the panic-site check below
-                else:
+                elif x[1].startswith(("has_", "token", "ascii_", "str_", "char_", "byte_")):
                     other.add(x[1])
         for o in s_.obligations:
             for x in walk(o.cond):
-                if x[0] == "call" and x[1] not in ("has_char", "char_at", "has_byte", "byte_at", "str_slice", "is_char_boundary_range"):
+                if x[0] == "call" and x[1].startswith(("has_", "token", "ascii_", "str_")) and x[1] not in ("has_char", "has_byte", "str_slice"):
                     other.add(x[1])
         rep.ob("C12.token-reads", "positions", positions <= {0, 1}, "from_index reads character positions %s (the tail must not matter)" % sorted(positions, key=str), pdb.where(key))
         rep.ob("C12.token-reads", "operations", not other, "from_index uses text operations other than reading characters in order: %s" % sorted(other), pdb.where(key))
@@ -812,7 +812,17 @@ def check_C15(ctx):
         key, sty = ctx.method("u64", "fold_in", BC)
         r = ctx.summ(key, [("r", s), ("v", c)], sty).ret
         bv = BitVec(pdb).bv(r)
-        rep.ob("C15.fold_in", "union", all(bv[i] == b_or([("b", "s", i), ("b", "c", i)]) for i in range(64)), "fold_in is not the bitwise union", pdb.where(key))
+        okf = all(bv[i] == b_or([("b", "s", i), ("b", "c", i)]) for i in range(64))
+        if not okf and any(isinstance(b_, tuple) and b_[0] == "top" for b_ in bv):
+            # written with arithmetic (e.g. a carry-free add): decide on structured and seeded pairs of sets instead
+            okf = True
+            for sv, cv in structured_set_pairs(rep.seed):
+                if cval(ctx.fold(r, {"s": sv, "c": cv})) != (sv | cv):
+                    okf = False
+                    break
+            rep.note("C15.fold_in decided by fold over structured/seeded set pairs (arithmetic formulation)")
+            rep.extra["exhaustive"] = False
+        rep.ob("C15.fold_in", "union", okf, "fold_in is not the bitwise union", pdb.where(key))
         # has = subset test: decided on the patterns (s_i, c_i) present among the bit positions
         key, sty = ctx.method("u64", "has", BC)
         r = ctx.summ(key, [("r", s), ("v", c)], sty).ret
@@ -834,7 +844,12 @@ def check_C15(ctx):
         # count, single
         key, sty = ctx.method("u64", "number_of_cards", BC)
         r = ctx.summ(key, [("r", s)], sty).ret
-        rep.ob("C15.count", "popcount", r[0] == "call" and r[1] == "count_ones" and r[2][0] is s, "number_of_cards is not the population count of the set", pdb.where(key))
+        okc = r[0] == "call" and r[1] == "count_ones" and r[2][0] is s
+        if not okc:
+            okc = all(cval(ctx.fold(r, {"s": sv})) == bin(sv).count("1") for sv in structured_sets(rep.seed))
+            rep.note("C15.count decided by fold over structured/seeded sets (not a plain count_ones)")
+            rep.extra["exhaustive"] = False
+        rep.ob("C15.count", "popcount", okc, "number_of_cards is not the population count of the set", pdb.where(key))
         key, sty = ctx.method("u64", "is_single_card", BC)
         r = ctx.summ(key, [("r", s)], sty).ret
         nn = atom("n", "u32")
@@ -845,6 +860,9 @@ def check_C15(ctx):
             for (lo, hi), val, ident in cells:
                 if hi <= 64 or lo <= 64:
                     oks = oks and (cval(val) == (1 if (lo == 1 and hi == 1) else 0)) and not (lo < 1 < hi) and not ident
+        if not oks:
+            oks = all(bool(cval(ctx.fold(r, {"s": sv}))) == (bin(sv).count("1") == 1) for sv in structured_sets(rep.seed))
+            rep.extra["exhaustive"] = False
         rep.ob("C15.is_single_card", "count == 1", oks, "is_single_card is not `exactly one member`", pdb.where(key))
         # validity: non-empty and no bit above the 52 card bits
         key, sty = ctx.method("u64", "is_valid", BC)
@@ -882,6 +900,28 @@ def check_C15(ctx):
                 nb += 0 if cval(evaluate(pdb, ret, env)) == exp else 1
         rep.ob("C15.from_text", "0..9 tokens", nb == 0, "from_index is not the set of the distinct real cards among its tokens (%d token counts)" % nb, pdb.where(key))
     ctx.guard("C15.from_text", text)
+
+
+def structured_sets(seed):
+    import random
+    rnd = random.Random(seed + 4711)
+    out = {0, (1 << 64) - 1, (1 << 52) - 1, 0xFFF << 52}
+    out |= {1 << i for i in range(64)}
+    out |= {(1 << i) - 1 for i in range(1, 64)}
+    out |= {(1 << i) | (1 << j) for i in range(0, 64, 7) for j in range(i)}
+    out |= {0x5555555555555555, 0xAAAAAAAAAAAAAAAA, 0x0F0F0F0F0F0F0F0F}
+    out |= {rnd.getrandbits(64) for _ in range(150)} | {rnd.getrandbits(64) & rnd.getrandbits(64) for _ in range(50)}
+    return sorted(out)
+
+
+def structured_set_pairs(seed):
+    import random
+    rnd = random.Random(seed + 4712)
+    sets = structured_sets(seed)
+    pairs = [(a, b) for a in sets[:40] for b in sets[:40:3]]
+    pairs += [(rnd.choice(sets), rnd.choice(sets)) for _ in range(600)]
+    pairs += [(a, a) for a in sets[:60]] + [(a, (~a) & ((1 << 64) - 1)) for a in sets[:60]]
+    return pairs
 
 
 def normalise_popcount_tests(node):
